@@ -720,7 +720,23 @@ def check_naive(ctx: Ctx, only: Optional[str] = "NaiveThresholdMatching"):
     for cls, f in matcher_classes(ctx):
         if only and cls.name != only:
             continue
-        loop, score, ref, pred = matcher_loop(prog, f)
+        try:
+            loop, score, ref, pred = matcher_loop(prog, f)
+        except AnchorMissing as e0:
+            # the greedy loop does not sit in the matcher's own method (a shared helper, a generator ...): the
+            # path-condition rules have nothing to read; the matcher is decided by its run alone
+            if cls.name != "NaiveThresholdMatching":
+                raise
+            try:
+                gv, gw, gruns = greedy_run(ctx, cls, f)
+            except (Undecided, AnchorMissing, RaiseSignal) as e:
+                gv, gw, gruns = None, {"why": f"{type(e).__name__}: {e}"}, 0
+            if gv is None:
+                ctx.undecided("R03.4", f, f.node, f"{f.qual}:greedy-run", f"candidate loop not found in the matcher's method ({e0}) and the matcher could not be run: {gw}")
+            else:
+                ctx.decide("R03.4g", f, f.node, f"{f.qual}:greedy-run", "on every ordering of the candidates of two scenario families, every outcome of the threshold tests and both many-to-one settings the returned label map is the greedy one", gv, gw or {"runs": gruns})
+                n_sites += 1
+            continue
         atoms = MatcherAtoms(ctx, f, pred, ref, score)
         init = cls.lookup("__init__")
         if init is not None and any(p.name == "allow_many_to_one" for p in init.params):
@@ -1045,7 +1061,33 @@ def greedy_run(ctx: Ctx, cls, f):
     tp = next((x for x in names if "thr" in x.lower()), None)
     mp = next((x for x in names if "metric" in x.lower()), None)
     op = next((x for x in names if "many" in x.lower()), None)
-    pairs = [(1, 1), (1, 2), (2, 1), (2, 2)]  # (reference label, prediction label)
+    runs = 0
+    total_v, total_w = True, None
+    for pairs, plabels in (([(1, 1), (1, 2), (2, 1), (2, 2)], (1, 2)), ([(1, 1), (1, 2), (2, 3), (2, 1)], (1, 2, 3))):  # (reference label, prediction label); second family: more predictions than references
+        v_, w_, r_ = _greedy_family(ctx, cls, f, pairs, plabels)
+        runs += r_
+        if v_ is not True:
+            return v_, w_, runs
+    return True, None, runs
+
+
+def _greedy_family(ctx: Ctx, cls, f, pairs, plabels):
+    from fractions import Fraction
+    from itertools import permutations
+
+    from .common import candidate_layout
+    from .resultrun import ResultInterp
+
+    prog = ctx.prog
+    gen = prog.func("_functionals:_calc_matching_metric_of_overlapping_labels")
+    pcls = prog.cls("utils.processing_pair:UnmatchedInstancePair")
+    init = cls.lookup("__init__")
+    api = labelmap_api(prog)
+    layout = candidate_layout(prog)
+    names = [p.name for p in init.call_params] if init is not None else []
+    tp = next((x for x in names if "thr" in x.lower()), None)
+    mp = next((x for x in names if "metric" in x.lower()), None)
+    op = next((x for x in names if "many" in x.lower()), None)
     runs = 0
     # a matcher whose candidate generator already applies the matcher's own threshold (established by running
     # the generator, candidate_prefilter) receives passing candidates only: the scenario's candidates all pass
@@ -1073,7 +1115,7 @@ def greedy_run(ctx: Ctx, cls, f):
             its = []
 
             def make(prefix, records=records):
-                pair = Obj(pcls, {"_prediction_arr": Sym("PRED_ARR"), "_reference_arr": Sym("REF_ARR"), "_ref_labels": (1, 2), "_pred_labels": (1, 2), "n_dim": 3, "n_prediction_instance": 2, "n_reference_instance": 2})
+                pair = Obj(pcls, {"_prediction_arr": Sym("PRED_ARR"), "_reference_arr": Sym("REF_ARR"), "_ref_labels": (1, 2), "_pred_labels": tuple(plabels), "n_dim": 3, "n_prediction_instance": len(plabels), "n_reference_instance": 2})
                 params = [p.name for p in f.call_params]
                 it = matcher_run_interp()(prog, f, {**({params[0]: pair} if params else {}), f.self_name: matcher}, metrics=[me], prefix=prefix)
                 it.root.no_inline = {gen.qual}
@@ -1120,7 +1162,8 @@ def greedy_run(ctx: Ctx, cls, f):
                     return None, {"why": f"label map state not readable ({api['dict_attr']})", **scen}, runs
                 got = {k: v for k, v in got.items()}
                 if got != want or not blocked_ok:
-                    return False, {"got": {str(k): v for k, v in got.items()}, "greedy": {str(k): v for k, v in want.items()}, **scen}, runs
+                    why = {} if got != want else {"why": "a candidate was never tested against the threshold although nothing rules it out (its prediction is free, its reference free or shareable, no earlier candidate failed): had it passed, it would be missing", "untested": [pairs[i] for i in order if i not in beats]}
+                    return False, {"got": {str(k): v for k, v in got.items()}, "greedy": {str(k): v for k, v in want.items()}, **why, **scen}, runs
     return True, None, runs
 
 
